@@ -27,8 +27,8 @@ Inf == 2000000000
 (* pools *)
 PoolByName(cfg, n) == CHOOSE p \in Range(cfg.pools) : p.name = n
 KnownPool(cfg, n) == \E p \in Range(cfg.pools) : p.name = n
-\* "ready NodePool": Ready condition true and not being deleted
-PoolUsable(q) == ~q.notReady /\ ~q.deleting
+\* "ready NodePool": Ready condition true and not being deleted; a static pool (spec.replicas) never takes part in scheduling
+PoolUsable(q) == ~q.notReady /\ ~q.deleting /\ q.replicas = 0
 PoolTypes(cfg, q) == IF q.types = <<>> THEN Range(cfg.types) ELSE {t \in Range(cfg.types) : t.name \in Range(q.types)}
 Strict(cfg) == cfg.options.minValues = "Strict"
 MaxTypes(cfg) == IF cfg.options.maxTypes > 0 THEN cfg.options.maxTypes ELSE 600
@@ -151,7 +151,8 @@ G_C19_HighestWeightFeasible(cfg, e, pn, left) ==
 SigHighest(cfg, e, pn, left) ==
     IF ~KnownPool(cfg, pn) THEN "unknown-pool"
     ELSE LET r == PoolByName(cfg, pn) IN
-         IF r.notReady THEN "pool-not-ready" ELSE IF r.deleting THEN "pool-being-deleted" ELSE "higher-weight-pool-feasible"
+         IF r.notReady THEN "pool-not-ready" ELSE IF r.deleting THEN "pool-being-deleted" ELSE IF r.replicas > 0 THEN "static-pool"
+         ELSE "higher-weight-pool-feasible"
 
 ----------------------------------------------------------------------------
 (* G_C19_CheapestPrefix: claim c (Results record: reqs) with the scheduler's *)
@@ -228,7 +229,8 @@ TemplateParts(pool, cr) ==
       hash    |-> HashKey \in DOMAIN cr.annotations /\ cr.annotations[HashKey] = cr.expHash,
       version |-> HashVersionKey \in DOMAIN cr.annotations /\ cr.annotations[HashVersionKey] = cr.expHashVersion,
       simkeys |-> /\ SimulationKeys \cap DOMAIN cr.allLabels = {}
-                  /\ \A i \in DOMAIN cr.reqs : cr.reqs[i].key \notin SimulationKeys ]
+                  \* ... nor the placeholder hostname the scheduler gives a NodeClaim while it simulates (removed by FinalizeScheduling)
+                  /\ \A i \in DOMAIN cr.reqs : cr.reqs[i].key \notin SimulationKeys /\ cr.reqs[i].key # "host" ]
 G_C13_Template(pool, cr) ==
     LET x == TemplateParts(pool, cr) IN x.labels /\ x.taints /\ x.startup /\ x.hash /\ x.version /\ x.simkeys
 SigTemplate(pool, cr) ==
